@@ -19,7 +19,7 @@ RULE = ("each run: generated well-formed input, one size or value fault (biased 
 REAL = common.REAL_DECODER
 ASSUMPTIONS = ["consumed offending bytes: the bad field for a value error; the rest of the overrun region for an "
                "exceeded error; none for anticipated / subceeded errors (DESIGN.md C13)"]
-TIERS = {"quick": {"runs": 40000, "budget": 75}, "thorough": {"runs": 1000000, "budget": 780}}
+TIERS = {"quick": {"runs": 40000, "budget": 150}, "thorough": {"runs": 1000000, "budget": 780}}
 
 
 def enumerate_all(tier, rng):
